@@ -145,7 +145,8 @@ def check_skip(repo, res, fns):
                 continue
             # only loops whose index is decoded into an edge (index-to-edge skip sampling); the Chung-Lu style loops
             # walk a sorted label list with a different, conditional skip scheme
-            decoded = any(isinstance(c, ast.Call) and c.args and isinstance(c.args[0], ast.Name) and c.args[0].id == idx and (getattr(c.func, "id", "").startswith("_index_to_edge") or getattr(c.func, "id", "") in ("f", "decode")) for s in own_statements(st) for c in ast.walk(s))
+            decoders = {a.targets[0].id for a in own_statements(fn.node) if isinstance(a, ast.Assign) and len(a.targets) == 1 and isinstance(a.targets[0], ast.Name) and isinstance(a.value, ast.Name) and a.value.id.startswith("_index_to_edge")}
+            decoded = any(isinstance(c, ast.Call) and c.args and isinstance(c.args[0], ast.Name) and c.args[0].id == idx and (getattr(c.func, "id", "").startswith("_index_to_edge") or getattr(c.func, "id", "") in decoders) for s in own_statements(st) for c in ast.walk(s))
             if not decoded:
                 continue
             n += 1
@@ -219,9 +220,14 @@ def check_radix(repo, res):
     rets = [r for r in own_statements(fn2.node) if isinstance(r, ast.Return)]
     ok2 = False
     for r in rets:
-        if isinstance(r.value, ast.ListComp) and isinstance(r.value.generators[0].target, ast.Name):
-            rv = r.value.generators[0].target.id
-            e = r.value.elt
+        val = r.value
+        if isinstance(val, ast.Name):
+            defs = [s.value for s in own_statements(fn2.node) if isinstance(s, ast.Assign) and any(isinstance(t, ast.Name) and t.id == val.id for t in s.targets)]
+            if len(defs) == 1:
+                val = defs[0]
+        if isinstance(val, ast.ListComp) and isinstance(val.generators[0].target, ast.Name):
+            rv = val.generators[0].target.id
+            e = val.elt
             # (index // n**r) % n
             if isinstance(e, ast.BinOp) and isinstance(e.op, ast.Mod) and isinstance(e.right, ast.Name) and e.right.id == n2 and isinstance(e.left, ast.BinOp) and isinstance(e.left.op, ast.FloorDiv) and isinstance(e.left.left, ast.Name) and e.left.left.id == idx2:
                 d = e.left.right
